@@ -4,7 +4,7 @@ from vlib import tvwasmcheck, runner
 from templates import families
 
 ASSUME = [
- 'contracts for the C runtime (lirsym/rtsum.py, discharged by C16/C17) and for the imports runtime/wasm/runtime.js provides (lirsym/wasm.py: bump allocation as fresh regions, memcpy, array new/append/get/set/len, string_len, panic, Print/Println); runtime.js itself is NOT executed symbolically - it is exercised only by the node replays',
+ 'contracts for the C runtime (lirsym/rtsum.py, discharged by C16/C17) and for the imports runtime/wasm/runtime.js provides (lirsym/wasm.py: bump allocation as fresh regions, memcpy, array new/append/get/set/len, string_len, panic, Print/Println); runtime.js itself is NOT executed symbolically - it is exercised only by the node replays; the rtjs family (array growth from capacity 0..3, second allocation after appends, writes after growth) is always replayed on its witness input so that a runtime.js that breaks one of these contracts shows as a witness disagreement',
  'QBE IL semantics (lirsym/qbe.py) and WebAssembly 1.0 semantics (lirsym/wasm.py: wrapping arithmetic, div_s traps on 0 and MIN/-1, rem_s traps on 0 only, masked shift counts, little-endian memory); both validated on every run by replaying one witness per template natively and under node',
  'observable behaviour = termination class (normal / panic-or-trap) + printed values + the value the template returns (printed by main); text formatting of numbers is not compared symbolically',
  'a native path with undefined behaviour (fall-off, out-of-region access, ill-typed IL) is skipped here: it is the business of C01/C04/C05',
